@@ -52,7 +52,7 @@ ANCHORS = ['pfhedge.instruments.primary.base:BasePrimary.to',
            'pfhedge.instruments.derivative.base:BaseDerivative.to',
            'pfhedge.stochastic._utils:cast_state']
 DECIDING = ["state_machine", "derived.dtype", "reject.int_dtype"]
-REQUIRED_BRANCHES = ["op.simulate_after_cast", "op.cast_after_simulate", "op.to_instrument", "op.register_buffer", "op.set_default", "derivative.alias", "derivative.two_underliers"]
+REQUIRED_BRANCHES = ["op.simulate_after_cast", "op.cast_after_simulate", "op.to_instrument", "op.register_buffer", "op.set_default", "derivative.alias", "derivative.two_underliers", "op.cast_alias_spelling"]
 
 PRIMS = ["brownian", "heston", "cir", "vasicek", "merton", "kou", "rbergomi", "localvol"]
 OPS = ["to_f32", "to_f64", "float", "double", "half", "bfloat16", "to_tensor64", "to_tensor32", "to_inst64", "to_inst_none", "to_inst_kw32", "simulate",
@@ -107,8 +107,20 @@ class Model:
         self.B[name] = self.d if self.d is not None else tdtype
 
 
-def apply(op, target, model, prim):
-    """Apply op to the real target (primary or derivative) and to the model. Returns a label for evidence."""
+def apply(op, target, model, prim, alt=False):
+    """Apply op to the real target (primary or derivative) and to the model.  `alt` selects the documented alias spelling of the cast
+    (float32() for float(), float64() for double(), float16() for half(), to(dtype=...) / cpu())."""
+    if alt and op in ("float", "double", "half", "to_f32", "to_cpu"):
+        ctx_alias = {"float": ("float32", F32), "double": ("float64", F64), "half": ("float16", F16)}
+        if op in ctx_alias:
+            getattr(target, ctx_alias[op][0])()
+            model.cast(ctx_alias[op][1])
+        elif op == "to_f32":
+            target.to(dtype=F32, device=torch.device("cpu"))
+            model.cast(F32)
+        else:
+            target.cpu()
+        return
     if op == "to_f32":
         target.to(F32)
         model.cast(F32)
@@ -245,7 +257,10 @@ def run_sequence(ctx, kind, ctor_dtype, wrapper, seq):
                 done.append(op)
                 continue
             try:
-                apply(op, target, model, prim)
+                alt = len(done) % 2 == 1  # alias spellings at odd positions (every operation occurs at every position in the enumeration)
+                if alt and op in ("float", "double", "half"):
+                    ctx.branch("op.cast_alias_spelling")
+                apply(op, target, model, prim, alt)
             except RuntimeError as ex:
                 msg = str(ex)
                 if op == "simulate" and model.B.get("spot", model.d if model.d is not None else model.g) in (F16, BF16) or (
